@@ -193,6 +193,9 @@ def restore_state(snap):
             live.update(saved)
 
 
+_IMPORT_STATE = snapshot_state()
+
+
 # --------------------------------------------------------------------------
 # configuration of a tier
 
@@ -381,7 +384,8 @@ def unit(cfg):
                 "sasmodels.kerneldll.dll_path", "sasmodels.kerneldll.dll_name",
                 "sasmodels.kerneldll.compile_model", "sasmodels.kerneldll.DllModel._load_dll")
     pool = Pool(generate.DATA_PATH, VROOT + "/plugins")
-    snap = snapshot_state()
+    snap = _IMPORT_STATE        # the state right after import, not whatever an earlier unit left
+    restore_state(snap)
     if cfg.get("validate"):
         validate(u, shape, pool, snap)
     ops, ts, m0, A = symbols(shape)
@@ -728,7 +732,7 @@ def validate(u, shape, pool, snap):
             info = core.load_model_info(rpool.paths["py"])
             src_real = generate.make_source(info)["dll"]
             name_real = os.path.basename(kerneldll.dll_path(info.id + "_" + generate.tag_source(src_real),
-                                                            np.dtype(dt)))
+                                                            NPDTYPE[dt]))
             restore_state(snap)
             # the same texts at the same paths, virtually
             vf = V.VFS(volatile=[VDLL])
@@ -921,7 +925,7 @@ def run(chk):
         "The real load path (core.load_model -> custom.load_custom_kernel_module/need_reload -> "
         "make_model_info -> generate.make_source/load_template -> kerneldll.load_dll/make_dll/dll_name -> "
         "DllModel._load_dll) is executed on a virtual filesystem.  The history (op<i> in {edit .py, edit "
-        "included .c, edit template: each to either other text of a 3-version pool, change precision, "
+        "included .c, edit template: each to either other text of a 3-version pool, change precision among double / long double / single, "
         "load+evaluate, new process}) is a vector of symbolic integers and all modification times (initial "
         "stamps, clock at each step) are symbolic reals under the clock model; the explorer forks on every "
         "mtime comparison of the real code and z3 decides which outcomes are possible.  After every load "
@@ -952,6 +956,8 @@ def run(chk):
         "generate.getmtime / exists / open -> vfs",
         "kerneldll.os / tempfile / subprocess / ct / open / SAS_DLL_PATH -> vfs (scripted compiler: library = image of the C text it was given; CDLL reads it back)",
         "kerneldll.make_dll wrapped by an observation probe recording the generated source",
+        "the plugin's included C file is named like a file shipped under sasmodels/models (%s): the plugin's "
+        "own copy must be the one compiled" % c_include_name(),
         "'new process' = module-level containers of custom, generate, kerneldll, core, modelinfo restored to their import-time content",
     ]
     chk.assumptions = [
